@@ -134,6 +134,7 @@ def concrete_violation():
         'duplicate': pd.DataFrame({'c': a, 'a': a.copy(), 'b': b}),
         'anti': pd.DataFrame({'c': a, 'a': -a, 'b': b}),
         'constant': pd.DataFrame({'c': a, 'a': np.full(n, 3.0), 'b': b}),
+        'outlier': pd.DataFrame({'c': np.append(a, [-14.0, 0.3]), 'a': np.append(b, [9.0, -0.2]), 'b': np.append(rs.normal(size=n), [0.1, 17.0])}),
     }
     for nm, t in tables.items():
         m = GaussianMultivariate(distribution=GaussianUnivariate)
